@@ -25,7 +25,7 @@ const (
 
 func exhLen(tier string) int    { return vlib.TierN(tier, 5, 6) }
 func exhBlocks(tier string) int { return vlib.TierN(tier, exhBlocksQuick, exhBlocksThorough) }
-func randCases(tier string) int { return vlib.TierN(tier, 752, 6208) }
+func randCases(tier string) int { return vlib.TierN(tier, 752, 62208) }
 
 func init() {
 	vlib.Register(&vlib.Prop{
